@@ -43,8 +43,26 @@ def _patches(valid='all'):
     return make
 
 
-def body(ctx, conv, shape, bounds, layout, nan_cells=None, mesh_opts=None, mode='name', coord_dtype=None, lon_transposed=False):
+def _short_lived_plots():
+    """Other datasets plotted and dropped earlier in the same process (real artists, concrete data)."""
+    import gc
+    from symx import builders
+    for rep in range(2):
+        for shape in ((2, 3), (3, 2), (2, 4)):
+            d = builders.cf1d(*shape, lat=numpy.arange(shape[0]) * 1.5 + rep, lon=numpy.arange(shape[1]) * 2.5 - rep,
+                              data_vars={'temp': (('y', 'x'), numpy.zeros(shape))})
+            try:
+                d.ems.make_poly_collection('temp')
+            except Exception:
+                pass
+            del d
+            gc.collect()
+
+
+def body(ctx, conv, shape, bounds, layout, nan_cells=None, mesh_opts=None, mode='name', coord_dtype=None, lon_transposed=False, after_others=False):
     import xarray
+    if after_others and not ctx.symbolic:
+        _short_lived_plots()
     probe = {'cf1d': ('y', 'x'), 'cf2d': ('y', 'x'), 'shoc_simple': ('j', 'i'), 'shoc_standard': ('j_centre', 'i_centre'), 'ugrid': ('nface',)}[conv]
     gshape = shape if conv != 'ugrid' else (len(pipeline.builders.MESHES[shape][1]),)
     ddims = list(probe) if layout == 'plain' else list(probe)[::-1]
@@ -293,6 +311,10 @@ def cases(tier):
                 yield Case(f'{conv}:{shape[0]}x{shape[1]}:{bounds}:nan{nm}:{layout}:{mode}', body,
                            dict(conv=conv, shape=shape, bounds=bounds, layout=layout, nan_cells=nan_cells, mode=mode),
                            patches=_patches(), max_paths=5000, split=8)
+    for conv, shape, bounds, nan_cells in (('cf1d', (2, 3), 'none', ()), ('cf1d', (3, 2), 'none', ())):
+        yield Case(f'{conv}:{shape[0]}x{shape[1]}:{bounds}:plain:name:after-other-datasets', body,
+                   dict(conv=conv, shape=shape, bounds=bounds, layout='plain', nan_cells=nan_cells, mode='name', after_others=True),
+                   patches=_patches(), max_paths=5000, split=8)
     yield Case('cf2d:2x3:stored:nan0:plain:quiver:longitude-stored-transposed', body,
                dict(conv='cf2d', shape=(2, 3), bounds='stored', layout='plain', nan_cells=(), mode='quiver', lon_transposed=True),
                patches=_patches(), max_paths=5000, split=8)
